@@ -5,6 +5,7 @@ real results with independent Python oracles written from the property text."""
 from __future__ import annotations
 import json
 import math
+import re
 
 import numpy as np
 
@@ -221,7 +222,7 @@ def correspondence(ctx, n_hist: int, n_reuse: int, oracles):
         m = hist_meta(h)
         for name, orc in oracles:
             for pr in orc(h, obs):
-                ctx.violation(f"{name}:{pr.split(';')[0][:60].rstrip('0123456789.- ')}", pr, {"kind": "history", "history": m, "observed": obs})
+                ctx.violation(f"{name}:" + re.sub(r"[-+]?[0-9][0-9.e+-]*", "N", pr.split(';')[0])[:60], pr, {"kind": "history", "history": m, "observed": obs})
         if obs["error"]: stop_kinds["error"] += 1
         elif obs["steps"] >= h["max_cycles"]: stop_kinds["budget"] += 1
         elif h["fitness_error"] is not None and obs["rates"] and obs["rates"][-1] <= h["fitness_error"]: stop_kinds["fitness_error"] += 1
